@@ -223,7 +223,34 @@ def main(ck, only_case=None, only_req=None):
           pl = cs[0] * gg.rand_unit(rng) * 0.9 * rng.rand() ** (1 / 3)
         PB = PA + RA @ pl if small_is_b else PA - RB @ pl
         dclass, dkind, delta = 'centre-inside', 'inside', float('nan')
-      if rng.rand() < 0.3 and not inside:
+      corner = ip >= 4 and {ta, tb} == {'capsule', 'box'}
+      if corner:
+        # structured class "capsule aimed at a box corner": each of the 8 corners in turn, capsule axis oblique to the box
+        # edges and perpendicular to the approach direction u (u inside the corner's normal cone), so the closest capsule
+        # point is the MIDDLE of its segment, the closest box feature is the corner itself and the distance is exactly delta
+        ci = (case['seed'] + ip) % 8
+        sg = np.array([1.0 if ci & 1 else -1.0, 1.0 if ci & 2 else -1.0, 1.0 if ci & 4 else -1.0])
+        box_is_a = ta == 'box'
+        bs, cr = (sa, sb[0]) if box_is_a else (sb, sa[0])
+        ul = sg * rng.uniform(0.25, 1.0, 3)
+        ul /= np.linalg.norm(ul)
+        if M + G > 0 and rng.rand() < 0.5:
+          delta, dclass = (M + G) * rng.uniform(0.05, 0.95), 'in-margin'
+        else:
+          delta, dclass = -cr * 10 ** rng.uniform(-4, -1.3), 'pen-shallow'
+        Rbox = gg.orient(rng, 'random' if rng.rand() < 0.7 else 'identity')
+        uw = Rbox @ ul
+        zc = gg.perp_unit(rng, uw)
+        xc = gg.perp_unit(rng, zc)
+        Rcap = np.stack([xc, np.cross(zc, xc), zc], axis=1)
+        if box_is_a:
+          RA, RB = Rbox, Rcap
+          PB = PA + Rbox @ (sg * bs[:3]) + uw * (cr + delta)
+        else:
+          RA, RB = Rcap, Rbox
+          PB = PA - Rbox @ (sg * bs[:3]) - uw * (cr + delta)
+        okind, dkind, shifted = 'random', 'box-corner-%d' % ci, False
+      if rng.rand() < 0.3 and not inside and not corner:
         PB = PB + gg.perp_unit(rng, dvec) * smin * rng.uniform(0, 0.5)
         shifted = True
       S = [gr.Shape(ta, sa, PA, RA), gr.Shape(tb, sb, PB, RB)]
@@ -665,7 +692,7 @@ def main(ck, only_case=None, only_req=None):
       return
     aligned = info['okind'] in ('identity', 'axis90') and info['dkind'] in ('A-axis', 'B-axis', 'normal')
     structured = info['okind'] in ('parallel', 'parallel-z', 'tilt') or info['dkind'] in (
-        'A-diag2', 'A-diag3', 'perp-Az', 'perp-Bz', 'near-A-axis') or info['dclass'] in ('pen-deep', 'edge', 'centre-inside')
+        'A-diag2', 'A-diag3', 'perp-Az', 'perp-Bz', 'near-A-axis') or info['dkind'].startswith('box-corner') or info['dclass'] in ('pen-deep', 'edge', 'centre-inside')
     nt = ncon > 0 and (not aligned or structured)
     ck.case(nontrivial=nt, key=(pair, info['sa'], info['sb'], info['PB'], info['qB']),
             sample=dict(pair=pair, ncon=ncon, dmin=dmin, dtrue=dtrue, geomdist=d12, margin=M, gap=G,
